@@ -87,8 +87,8 @@ def _all_functions(mod):
 def r51(chk, m, rule_id='R5.1'):
     R = chk.rule(rule_id, 'ParameterCommand.disable()/enable() are balanced on every normal exit of every function '
                  'that calls either, private helpers being interpreted inside their callers (net 0, never positive)', 12)
-    fns = [f for f in balanced_functions(m) if not (f.cls is not None and f.cls.name == 'ParameterCommand')]
-    need(len(fns) >= 3, 'fewer than 3 functions call ParameterCommand.enable/disable: anchors moved')
+    fns = balanced_functions(m)           # (private helpers of ParameterCommand itself - context managers - count as helpers below)
+    need(len(fns) >= 1, 'no function calls ParameterCommand.enable/disable: anchors moved')
     # private helpers that share the bracket with their callers are interpreted inside them
     from .c04 import resolved_calls
     allf = [f for mod in m.modules.values() if 'simpletal' not in mod.name for f in _all_functions(mod)]
@@ -110,6 +110,7 @@ def r51(chk, m, rule_id='R5.1'):
                 work |= callers[name]
                 changed = True
     fns = [byname[n] for n in sorted(work - helpers) if n in byname and not (byname[n].cls is not None and byname[n].cls.name == 'ParameterCommand')]
+    need(len(fns) >= 3, 'fewer than 3 functions bracket their work with ParameterCommand.disable/enable: anchors moved')
     for fn in sorted(fns, key=lambda f: f.fullname):
         chk.analysed(fn)
         hk = BalHooks()
@@ -169,7 +170,7 @@ def r52(chk, m):
     argfn = m.func('plasTeX', 'Macro.arguments')
     chk.analysed(argfn)
     # the tokenising regular expression of the repository itself (a literal, or a module constant compiled from one)
-    fns = [argfn] + reachable_private(m, argfn)
+    fns = [argfn] + reachable_private(m, argfn, any_name=True)       # (the parser may live in helpers or in a function of another module)
     rx = None
     for f in fns:
         for c in M.calls_in(f.node):
@@ -189,11 +190,11 @@ def r52(chk, m):
     cands = []
     for f in fns:
         for n in M.walk_no_nested(f.node):
-            if isinstance(n, ast.Dict):
+            if isinstance(n, (ast.Dict, ast.DictComp)) or (isinstance(n, ast.Call) and M.call_name(n) == 'dict'):
                 cands.append(m.eval_const(f, n))
             elif isinstance(n, ast.Name) and isinstance(n.ctx, ast.Load):
                 r = m.resolve_name(f, n.id)
-                if isinstance(r, tuple) and r[0] == 'assign' and isinstance(r[2][-1], ast.Dict):
+                if isinstance(r, tuple) and r[0] == 'assign' and isinstance(r[2][-1], (ast.Dict, ast.DictComp, ast.Call)):
                     cands.append(m.eval_const(r[1], r[2][-1]))
     for v in cands:
         if isinstance(v, dict) and v and all(isinstance(k, str) and len(k) == 1 and k in '[(<{' for k in v):
@@ -266,13 +267,19 @@ def r52(chk, m):
     chk.call_sites += n_typed
 
 
-def reachable_private(m, fn, depth=3):
-    """Private helpers (module functions / methods of the class) reachable from fn through resolved calls."""
+def reachable_private(m, fn, depth=3, any_name=False):
+    """Private helpers (module functions / methods of the class) reachable from fn through resolved calls; any_name: public ones too."""
+    from .c04 import resolved_calls
     out, seen, todo = [], {fn.fullname}, [(fn, 0)]
     while todo:
         f, d = todo.pop()
         if d >= depth:
             continue
+        for c, callee in resolved_calls(m, f):           # ClassName._helper(...), module functions, methods through self
+            if callee.fullname not in seen and (any_name or (callee.name.startswith('_') and not callee.name.startswith('__'))):
+                seen.add(callee.fullname)
+                out.append(callee)
+                todo.append((callee, d + 1))
         for c in M.calls_in(f.node):
             callee = None
             fx = c.func
@@ -413,7 +420,7 @@ def r53(chk, m):
             for sign in (1, -1):
                 hk = H(m, dimen)
                 hk.should_inline = A.private_only
-                it = A.Interp(model=m, scope=f, hooks=hk, max_iter=4, exc_edges=False, inline=2)
+                it = A.Interp(model=m, scope=f, hooks=hk, max_iter=4, exc_edges=False, inline=4, heap=True, precise_exc=True)
                 outs = it.run_function(f, env={'self': sign * (2 + band)})
                 res[(u, sign)] = {v if not isinstance(v, float) else round(v, 6) for kind, s2, v in outs if kind == 'return'}
         if prop == 'fill':
@@ -487,14 +494,17 @@ class ScanHooks(SelfHooks):
         return SelfHooks.lookup(self, interp, name, state)
 
     def iter_item(self, interp, loop, k, state):
-        it = interp.ev(loop.iter, state)
+        r = self.take(interp, interp.ev(loop.iter, state), state)
+        return None if r is NotImplemented else r
+
+    def take(self, interp, it, state):
         if isinstance(it, A.Sym) and it.label == 'stream':
             pos = state.env.get('__pos', 0)
             if pos >= len(self.stream):
                 return A.STOP
             state.env['__pos'] = pos + 1
             return self.stream[pos]
-        return None
+        return NotImplemented
 
     def decide(self, interp, test, state):
         # comparisons of an abstract character token with strings / sets
@@ -764,10 +774,13 @@ def r57(chk, m):
     for label, present, spec in (('argument present', True, None), ('optional argument absent', False, '[]'), ('optional argument present', True, '[]')):
         h = H(m, TeXc, present)
         h.should_inline = A.private_only
-        it = A.Interp(model=m, scope=fn, hooks=h, max_iter=3, exc_edges=False, inline=2)
+        it = A.Interp(model=m, scope=fn, hooks=h, max_iter=3, exc_edges=False, inline=3, heap=True, precise_exc=True)
         env = {a.arg: None for a in fn.node.args.args[1:] + fn.node.args.kwonlyargs}
+        # the context is a scripted object: whichCode / catcode are answered by the hooks however they are reached
+        ctx = A.Obj('context', {'whichCode': A.Sym('extfunc:the.context.whichCode', truthy=True), 'catcode': A.Sym('extfunc:the.context.catcode', truthy=True)})
+        me = A.Obj('tex', {'argtypes': {'url': ('cast-url', {'#': 12, '~': 12})}, 'ownerDocument': A.Obj('document', {'context': ctx})}, cls=TeXc)
         env.update({'type': 'url', 'spec': spec, 'delim': ',', 'expanded': False, 'stripLeadingWhitespace': False, 'charsubs': [],
-                    'default': A.Sym('default'), 'self.argtypes': {'url': ('cast-url', {'#': 12, '~': 12})}})
+                    'default': A.Sym('default'), 'self': me})
         outs = it.run_function(fn, env=env)
         chk.paths += len(outs)
         got = set()
@@ -780,6 +793,9 @@ def r57(chk, m):
                 final[k] = val
                 seen = True
             got.add('codes never changed' if not seen else ('restored' if final == OLD else 'left as %s' % sorted(final.items())))
+        if it.imprecise or it.unknown_branches:
+            chk.undecided(R, 'readArgumentAndSource :: %s' % label, '; '.join(sorted(set(list(it.imprecise) + list(it.unknown_branches)))[:3]), chk.where(fn))
+            continue
         chk.decide(R, 'readArgumentAndSource :: %s' % label, got, {'restored'},
                    'reading an argument of a type with its own category codes (%s): on return the codes are %s; expected the codes '
                    'in force before the argument - otherwise the rest of the document is read with # ~ %% & as ordinary characters'
